@@ -165,8 +165,22 @@ class DeferredStub: public ola::proto::OlaClientService_Stub {
 };
 
 static uint8_t g_dummy = 0;
-static void set_buf(DmxBuffer *b, const vector<uint8_t> &d) {
-  // what a plugin does with a received frame; a non-NULL pointer also for an empty frame
+// The frame field of a payload: hex = that frame; there are three kinds of EMPTY frame:
+//   "-"  an initialised buffer of length 0 (Set(ptr, 0), what a plugin does with a 0-slot packet)
+//   "~"  a NEVER-INITIALISED buffer (default-constructed DmxBuffer, no block allocated)
+//   "_"  a buffer that held data and was Reset() (block allocated, length 0)
+static void set_buf(DmxBuffer *b, const string &field) {
+  if (field == "~") {
+    *b = DmxBuffer();
+    return;
+  }
+  if (field == "_") {
+    static const uint8_t junk[3] = {0xde, 0xad, 0xbe};
+    b->Set(junk, sizeof(junk));
+    b->Reset();
+    return;
+  }
+  vector<uint8_t> d = vh::unhex(field);
   b->Set(d.empty() ? &g_dummy : d.data(), d.size());
 }
 
@@ -242,7 +256,7 @@ static string handle(const string &payload) {
     if (op == "pd") {
       wake = ts_of(vh::num(f[3]));
       clock.now = ts_of(vh::num(f[4]));
-      set_buf(&port->buf, vh::unhex(f[2]));
+      set_buf(&port->buf, f[2]);
       port->DmxChanged();
     } else if (op == "pc") {
       clock.now = ts_of(vh::num(f[2]));
@@ -250,7 +264,7 @@ static string handle(const string &payload) {
     } else if (op == "cd") {
       clock.now = ts_of(vh::num(f[5]));
       DmxBuffer b;
-      set_buf(&b, vh::unhex(f[2]));
+      set_buf(&b, f[2]);
       ola::DmxSource src(b, ts_of(vh::num(f[4])), static_cast<uint8_t>(vh::num(f[3])));
       client->DMXReceived(UNI, src);
       u->SourceClientDataChanged(client);
@@ -280,12 +294,12 @@ static string handle(const string &payload) {
       if (real_clients) stubs[id]->Deliver(vh::num(f[2]));
     } else if (op == "co") {
       DmxBuffer b;
-      set_buf(&b, vh::unhex(f[2]));
+      set_buf(&b, f[2]);
       ola::DmxSource src(b, ts_of(vh::num(f[4])), static_cast<uint8_t>(vh::num(f[3])));
       client->DMXReceived(OTHER_UNI + (id % 3), src);
     } else if (op == "sd") {
       DmxBuffer b;
-      set_buf(&b, vh::unhex(f[1]));
+      set_buf(&b, f[1]);
       u->SetDMX(b);
     } else if (op == "ao") {
       u->AddPort(static_cast<ola::OutputPort*>(outp));
